@@ -208,6 +208,10 @@ func c07Class(panicV, stack string) (cls, fn, kind string) {
 		kind = "divide"
 	case strings.Contains(panicV, "reflect"):
 		kind = "reflect"
+	case strings.Contains(panicV, "closed channel"), strings.Contains(panicV, "nil channel"):
+		kind = "chan"
+	case strings.Contains(panicV, "sync: "):
+		kind = "sync"
 	}
 
 	// skip everything up to the runtime "panic(" frame, then the first ego frame
@@ -284,6 +288,8 @@ func TestVerifC07Child(t *testing.T) {
 		}
 
 		res, timedOut, abandoned := c07One(cur.Mode, verifh.UnHex(cur.Hex), 200*time.Second)
+
+		time.Sleep(8 * c07Settle) // goroutines the program left behind get their chance to kill the process
 		fmt.Fprintf(os.Stderr, "C07-CONFIRM outcome=%s timedOut=%v abandoned=%v %s\n", res.outcome, timedOut, abandoned, res.panicV)
 
 		return
@@ -346,6 +352,8 @@ func TestVerifC07Child(t *testing.T) {
 	index := -1
 	resumeAt := -1
 
+	var prevConc []c07Cur
+
 	runCase := func(mode, kind, src string) {
 		index++
 		if index < from {
@@ -362,12 +370,23 @@ func TestVerifC07Child(t *testing.T) {
 			return
 		}
 
-		line, _ := json.Marshal(c07Cur{Index: index, Mode: mode, Kind: kind, Hex: verifh.Hex(src)})
+		this := c07Cur{Index: index, Mode: mode, Kind: kind, Hex: verifh.Hex(src)}
+		line, _ := json.Marshal(c07Cur{Index: index, Mode: mode, Kind: kind, Hex: this.Hex, Prev: prevConc})
 		_ = os.WriteFile(cur+".tmp", line, 0o644) // atomically: the child may die at any moment
 		_ = os.Rename(cur+".tmp", cur)
 
 		t0 := time.Now()
 		res, timedOut, abandoned := c07One(mode, src, deadline)
+
+		if strings.HasPrefix(kind, "conc") {
+			// goroutines of the program may outlive its main flow: give them time to finish (or to
+			// kill the process) while this case is still the one on record, and remember the case
+			time.Sleep(c07Settle)
+
+			if prevConc = append(prevConc, this); len(prevConc) > 3 {
+				prevConc = prevConc[1:]
+			}
+		}
 
 		if el := time.Since(t0); el > 500*time.Millisecond || abandoned {
 			slow.Write(map[string]any{"mode": mode, "kind": kind, "ms": el.Milliseconds(), "abandoned": abandoned, "timedOut": timedOut, "input": c07Head(src)})
